@@ -314,6 +314,21 @@ func (c *ctx) expr(e ast.Expr) (string, string) {
 			}
 			return "(Expr.conv Ty." + ty + " " + a + ")", ty
 		}
+		if s, ok := e.Fun.(*ast.SelectorExpr); ok && s.Sel.Name == "IsValid" && len(e.Args) == 0 {
+			x := c.t.text(s.X)
+			ty := recvTable[c.f.recvTy+"|"+x]
+			if x == c.f.recv && c.ren == nil {
+				ty = c.f.recvTy
+			}
+			if ty != "CellID" {
+				c.fail("IsValid() on a receiver that is not a CellID (%s): no IR primitive", x)
+			}
+			a, ta := c.varRef(c.key(s.X))
+			if ta != "u64" {
+				c.fail("CellID value %s is not tracked as u64", x)
+			}
+			return "(Expr.cellIDValid " + a + ")", "bool"
+		}
 		if s, ok := e.Fun.(*ast.SelectorExpr); ok && s.Sel.Name == "next" && len(e.Args) == 0 {
 			if id, ok := s.X.(*ast.Ident); ok && c.iters[id.Name] { // intrinsic, see header of generated file
 				return "(Expr.lit 1)", "bool"
@@ -557,6 +572,14 @@ func (c *ctx) emitRead(ty string, convs []string, lhs ast.Expr) {
 		cur = ty
 	}
 	id := c.define(k, cur)
+	if ty == "f64" && lhs != nil { // a coordinate stored into an ELEMENT of a point slice: vertex coordinate
+		ast.Inspect(lhs, func(n ast.Node) bool {
+			if _, ok := n.(*ast.IndexExpr); ok {
+				ty = "f64v"
+			}
+			return true
+		})
+	}
 	c.emit(fmt.Sprintf("Stmt.read Ty.%s %d", ty, id))
 	for i := len(convs) - 1; i >= 0; i-- {
 		if convs[i] == cur {
@@ -842,10 +865,33 @@ func (c *ctx) call(call *ast.CallExpr, lhs []ast.Expr) bool {
 		if g := c.funcValue(f); g != nil {
 			*c.cur = append(*c.cur, c.callStmts(g, call.Args)...)
 			c.forget(lhs)
+			c.writeBack(g, f.X)
 			return true
 		}
 	}
 	return false
+}
+
+// writeBack: a callee with a scalar pointer receiver (`func (ci *CellID) decode`) stores the value it read
+// into `*ci`; make it visible under the caller's name of the receiver (`c.id`) so that later conditions
+// (`c.id.IsValid()`) can use it.  Receivers that are slice elements (`(*cu)[i]`) are not tracked.
+func (c *ctx) writeBack(g *fn, recv ast.Expr) {
+	if g.recvTy != "CellID" || g.recv == "" {
+		return
+	}
+	hasIndex := false
+	ast.Inspect(recv, func(n ast.Node) bool {
+		if _, ok := n.(*ast.IndexExpr); ok {
+			hasIndex = true
+		}
+		return true
+	})
+	if hasIndex {
+		return
+	}
+	k := c.mustKey(recv)
+	id := c.define(k, "u64")
+	c.emit(fmt.Sprintf("Stmt.assign %d (Expr.var %d)", id, c.t.vid(g.def+"."+g.recv)))
 }
 func (c *ctx) callStmts(g *fn, args []ast.Expr) []*stmt {
 	c.t.translate(g)
